@@ -40,6 +40,13 @@ inductive FieldSrc
   | old | fresh
 deriving DecidableEq, Repr, Inhabited
 
+/-- the static `MemoryLeakWarningPlugin::firstPlugin_`, through which the macros
+    `EXPECT_N_LEAKS` / `IGNORE_ALL_LEAKS_IN_TEST` reach a plugin object: not set yet, the installed
+    plugin, or some other plugin object (constructed, never installed) -/
+inductive FirstPlugin
+  | unset | installed | other
+deriving DecidableEq, Repr, Inhabited
+
 /-- the calls of `UtestShell::runOneTestInCurrentProcess`, in source order -/
 inductive RStep
   | preActions | createTest | runTest | destroyTest | postActions
